@@ -24,7 +24,7 @@ func register(p *PropDef) { Properties[p.ID] = p }
 
 func init() {
 	register(&PropDef{
-		ID: "C20", Quick: 10000, Thorough: 2000000,
+		ID: "C20", Quick: 20000, Thorough: 2000000,
 		Profiles: []ProfileDef{
 			{Name: "queue-direct", Share: 10, Sc: scQueueDirect},
 		},
